@@ -6,6 +6,14 @@
 #include <errno.h>
 #include "myth/myth.h"
 #include "mythmc.h"
+#ifdef __cplusplus
+extern "C" {
+#endif
+/* exported by the library (src/myth_if_native.c) but missing from the public header */
+int myth_globalattr_set_child_first(myth_globalattr_t * attr, int child_first);
+#ifdef __cplusplus
+}
+#endif
 
 /* creation variants: every way the public API can start a thread */
 enum {
